@@ -106,7 +106,7 @@ def long_text(w):
             return base
         p = pos % len(base)
         return base[:p] + ch + base[p + 1:]
-    return st.tuples(st.text(alphabet=NUC, min_size=w, max_size=w + 200), st.integers(0, 10_000), st.sampled_from(["", "", "N", "n", "-", "\u00e9"])).map(put)
+    return st.tuples(st.text(alphabet=NUC, min_size=w, max_size=w + 200), st.one_of(st.just(0), st.integers(0, 10_000)), st.sampled_from(["", "", "N", "n", "-", "\u00e9", " ", "\t", "\n", "\u3000", "\u00a0"])).map(put)
 
 
 k_st = st.one_of(st.integers(1, 31), st.sampled_from([1, 2, 15, 16, 17, 30, 31]))
@@ -294,7 +294,38 @@ def chk_released(case):
         violation(leg, case, "released-minimiser-iterator", f"after the source string was released the minimiser iterator yields {got_m[:4]}, core {want_m[:4]}")
 
 
-CHECKS = {"kmer-iterator": chk_kmers, "to-acgt": chk_acgt, "minimiser-iterator": chk_mins, "oligo": chk_oligo, "cgr": chk_cgr, "released-string": chk_released}
+def chk_long(case):
+    """strings of a megabyte and more (built from a small generated unit): iterators, oligo vector and CGR against the core"""
+    leg = "long-strings"
+    begin(leg, case)
+    unit, target, k, w, m = case["unit"], case["bytes"], case["k"], case["w"], case["m"]
+    ulen = max(1, len(unit.encode("utf-8")))
+    s = unit * (target // ulen + 1)
+    note(leg, case, True, ["long", "long-non-ascii" if non_ascii(s) else "long-ascii"])
+    try:
+        oc = pk.OligoComputer(case["ok"])
+        got = oc.vectorise_one(s, case["norm"])
+        want = ORACLE.ask(op="oligo", seq=s, k=case["ok"], norm=case["norm"])["ok"]
+        if not close(got, want):
+            violation(leg, case, "long-oligo-vector-differs", "oligo vector of a long string differs from the core")
+        b = oc.vectorise_batch([s, unit], case["norm"])
+        if len(b) != 2 or not close(b[0], got, 0.0):
+            violation(leg, case, "long-oligo-batch", "vectorise_batch([long, short]) differs from the per-sequence results")
+        gk = sum(1 for _ in pk.KmerGenerator(s, k))
+        wk = ORACLE.ask(op="kmers_count", seq=s, k=k)["ok"]
+        if gk != wk:
+            violation(leg, case, "long-kmer-count", f"k-mer iterator yields {gk} items on a long string, core {wk}")
+        gm = [tuple(x) for x in pk.MinimiserGenerator(s, w, m)]
+        wm = [tuple(x) for x in ORACLE.ask(op="mins", seq=s, w=w, m=m)["ok"]]
+        if gm != wm:
+            violation(leg, case, "long-minimiser-iterator", f"minimiser iterator yields {len(gm)} runs on a long string, core {len(wm)}")
+    except Violation:
+        raise
+    except BaseException as e:  # noqa: BLE001  (PanicException derives from BaseException)
+        violation(leg, case, "long-string-exception", f"{type(e).__name__}: {str(e)[:300]}")
+
+
+CHECKS = {"long-strings": chk_long, "kmer-iterator": chk_kmers, "to-acgt": chk_acgt, "minimiser-iterator": chk_mins, "oligo": chk_oligo, "cgr": chk_cgr, "released-string": chk_released}
 
 # ------------------------------------------------------------------------------------------------
 # Hypothesis drivers
@@ -309,6 +340,11 @@ def drivers():
         "minimiser-iterator": (wm_st().flatmap(lambda wm: st.fixed_dictionaries({"seq": st.one_of(any_text, long_text(wm[0])), "w": st.just(wm[0]), "m": st.just(wm[1])})), 0.22),
         "oligo": (st.fixed_dictionaries({"seqs": batch_st(any_text), "k": st.integers(1, 6), "norm": st.booleans()}), 0.17),
         "cgr": (st.fixed_dictionaries({"seqs": batch_st(st.one_of(nuc_text, nuc_text, nuc_text, sprinkled)), "s": S_ST}), 0.17),
+        "long-strings": (st.fixed_dictionaries({
+            "unit": st.one_of(st.text(alphabet=NUC + "\u00e9\u20ac", min_size=1, max_size=40), st.text(alphabet="ACGT\u00e9", min_size=1, max_size=9), st.sampled_from(["\u00e9", "A\u00e9", "ACG\U0001F441T", "acgtN"])),
+            "bytes": st.sampled_from([1 << 20, (1 << 20) + 7, 1_300_000, 2_100_000]),
+            "k": k_st, "ok": st.integers(1, 6), "norm": st.booleans(),
+            "w": st.integers(20, 60), "m": st.integers(1, 20)}), 0.002),
         "released-string": (wm_st().flatmap(lambda wm: st.fixed_dictionaries({"parts": st.lists(st.one_of(st.text(alphabet=NUC, min_size=1, max_size=60), sprinkled), min_size=1, max_size=12), "k": k_st, "w": st.just(min(wm[0], 40)).map(lambda w: max(w, wm[1])), "m": st.just(wm[1])})), 0.17),
     }
 
